@@ -321,6 +321,53 @@ def check_inequality(a, b, res):
     res.label("inequality-checked")
 
 
+# pairs of different paths that are easy to confuse: a special character
+# inside one key (an escape in the text) against the same character acting
+# as syntax - bare and inside Collectors
+CONFUSABLE = []
+for _one, _two in [([("key", "a.b1")], [("key", "a"), ("key", "b1")]),
+                   ([("key", "a/b")], [("key", "a"), ("key", "b")]),
+                   ([("key", "a b")], [("key", "ab")]),
+                   ([("key", "a[0]")], [("key", "a"), ("index", 0)]),
+                   ([("key", "&x")], [("anchor", "x")])]:
+    CONFUSABLE.append((_one, _two))
+    CONFUSABLE.append(([("collector", "NONE", _one)],
+                       [("collector", "NONE", _two)]))
+    CONFUSABLE.append(([("key", "z"), ("collector", "NONE", _one)],
+                       [("key", "z"), ("collector", "NONE", _two)]))
+    CONFUSABLE.append(([("collector", "NONE", [("key", "q")]),
+                        ("collector", "SUBTRACTION", _one)],
+                       [("collector", "NONE", [("key", "q")]),
+                        ("collector", "SUBTRACTION", _two)]))
+
+
+def check_confusable(res):
+    from yamlpath import YAMLPath
+    for a, b in CONFUSABLE:
+        for sa in "./":
+            for sb in "./":
+                for x, y, same in ((a, b, False), (a, a, True), (b, b, True)):
+                    res.evaluations += 1
+                    tx, ty = render(x, sa, 0), render(y, sb, 0)
+                    try:
+                        eq = YAMLPath(tx) == YAMLPath(ty)
+                        ne = YAMLPath(tx) != YAMLPath(ty)
+                    except Exception as exc:
+                        res.label("confusable:raises:" + type(exc).__name__)
+                        continue
+                    if eq != same or ne == same:
+                        res.fail({"clause": "3-equal-iff-same-segments",
+                                  "shape": "confusable:" + shape_of(
+                                      list(x) + list(y))},
+                                 {"a": gpaths.to_json(_json_ast(x)),
+                                  "b": gpaths.to_json(_json_ast(y)),
+                                  "ta": tx, "tb": ty, "confusable": True},
+                                 "%r == %r -> %r, != -> %r" % (tx, ty, eq, ne))
+                        continue
+                    res.nontrivial(key=["confusable", tx, ty], sample=False)
+                    res.label("confusable-pair-checked")
+
+
 def valid_seq(combo):
     for i, s in enumerate(combo):
         if s[0] == "traverse" and i + 1 < len(combo) and \
@@ -346,6 +393,8 @@ def run_shard(shard):
     res = Result()
     dl = Deadline(shard.get("budget_s"))
     if shard["kind"] == "grid":
+        if shard["part"] == 0:
+            check_confusable(res)
         idx = 0
         singles = [[v] for v in VOCAB]
         pairs = ([a, b] for a in VOCAB for b in VOCAB)
@@ -443,6 +492,8 @@ def replay(case):
     if "ast" in case:
         check_ast(_from_json(case["ast"]), case["sep"], case["style"], res,
                   "replay")
+    elif case.get("confusable"):
+        check_confusable(res)
     else:
         check_inequality(_from_json(case["a"]), _from_json(case["b"]), res)
     return [r for _, recs in res.failures.values() for r in recs]
